@@ -64,14 +64,21 @@ def insCand (c : Cand) : List Cand → List Cand
   | [] => [c]
   | x :: xs => if c.2 < x.2 then c :: x :: xs else x :: insCand c xs
 
-/-- candidate list of a source: every destination within range, sorted by cost, then the null
-candidate (`assign_links` sorts; the `subnet_linker_*` wrappers append `(None, search_range)`) -/
+/-- weighted squared distance from the (predicted) source position to every destination -/
+def distRow (cfg : Cfg) (t : Int) (dsts : List Pos) (s : Source) : List Nat :=
+  dsts.map (fun q => dist2 cfg.w (view cfg t s) q)
+
+/-- candidate list from a row of distances: every destination within range, sorted by cost, then
+the null candidate (`assign_links` sorts; the `subnet_linker_*` wrappers append
+`(None, search_range)`) -/
+def candsOfRow (B : Nat) (row : List Nat) : List Cand :=
+  let real : List Cand := (row.zipIdx).filterMap (fun (d, j) =>
+      if d ≤ B then some (some j, d) else none)
+  (real.foldr insCand []) ++ [(none, B)]
+
+/-- candidate list of a source -/
 def candsOf (cfg : Cfg) (t : Int) (dsts : List Pos) (s : Source) : List Cand :=
-  let p := view cfg t s
-  let real : List Cand := (dsts.zipIdx).filterMap (fun (q, j) =>
-      let d := dist2 cfg.w p q
-      if d ≤ cfg.B then some (some j, d) else none)
-  (real.foldr insCand []) ++ [(none, cfg.B)]
+  candsOfRow cfg.B (distRow cfg t dsts s)
 
 /-- number of sources within range of destination `q` -/
 def nNeighbors (cfg : Cfg) (t : Int) (srcs : List Source) (q : Pos) : Nat :=
